@@ -182,6 +182,7 @@ let sem_simplify_cls portfolio (e : Sexp.t) : Sexp.t =
     (match not_a_fixpoint portfolio (formula g) with
      | Some cex -> cex
      | None -> sem_check (formula f) (formula g) (Semlib.hash_sexp e))
+  | L [ L [ s; f ]; L [ s'; g ] ] when strategy s <> None && s = s' -> sem_check (formula f) (formula g) (Semlib.hash_sexp e)
   | L [ f; g ] -> sem_check (formula f) (formula g) (Semlib.hash_sexp e)
   | _ -> bad "sem_simplify_cls: %s" (to_string e)
 
